@@ -418,7 +418,19 @@ example : ((PairRead.run true [false, true, false]).gotPhase, (PairRead.run true
 every designated field and mutex is still declared, immutable fields are never written outside
 their constructor literal, and the crdt batching state is published to its only reader by the go
 statement that follows its only write -/
-theorem gen_table_disciplined : tableOK Gen.guards Gen.spawns Gen.accesses = true := by decide
+theorem gen_table_disciplined :
+    tableOK Gen.guards Gen.spawns Gen.accesses Gen.contexts Gen.callEdges Gen.roots Gen.fnFacts = true := by decide +kernel
+
+/-- every reference taken out of a guarded structure that leaves its function (returned, sent on a
+channel, stored elsewhere) is a value copy, a fresh container of values, or points to objects
+with their own lock in the table / to payloads never written after insertion -/
+theorem gen_escapes_copied : escapesOK Gen.escapes = true := by decide
+
+/-- the interprocedural part of the table is not vacuous: some context carries a caller's lock
+into a callee, and some context binds a parameter to guarded data (`filterOpsMap(ctx, opt.operations, …)`) -/
+theorem gen_contexts_nonempty :
+    Gen.contexts.any (fun c => !c.locks.isEmpty) = true ∧ Gen.contexts.any (fun c => !c.binds.isEmpty) = true
+      ∧ Gen.accesses.any (fun a => a.param != 0) = true ∧ 3 ≤ Gen.escapes.length := by decide
 
 /-- the graph of nested acquisitions (direct, or through resolved calls and interface
 implementers) is acyclic: `rankOf` is a strict order along every edge -/
